@@ -149,3 +149,44 @@ func vh_C16_only_configured_header() {
 		verifAssert("C16.configured.garbage-is-an-error", e1 != nil && ip1 == nil)
 	}
 }
+
+// trusted-network entries as the operator writes them: an address stands for itself, a CIDR for
+// exactly its network -- an entry whose address has host bits set (10.1.2.3/8) or that does not
+// parse is refused, never widened to an enclosing network
+// verif: unwind=40 strlen=8 also=C01
+func vh_C15_parse_ipnet() {
+	type tc struct {
+		in      string
+		ok      bool
+		inside  string // an address the entry covers
+		outside string // a neighbouring address it must not cover
+	}
+	cases := []tc{
+		{"10.0.0.0/8", true, "10.200.1.1", "11.0.0.1"},
+		{"10.1.2.3/8", false, "", ""},
+		{"10.1.2.3", true, "10.1.2.3", "10.1.2.4"},
+		{"192.168.1.0/24", true, "192.168.1.77", "192.168.2.1"},
+		{"192.168.1.77/24", false, "", ""},
+		{"192.168.1.77/32", true, "192.168.1.77", "192.168.1.78"},
+		{"::1", true, "::1", "::2"},
+		{"2001:db8::/32", true, "2001:db8::5", "2001:db9::1"},
+		{"2001:db8::5/32", false, "", ""},
+		{"10.0.0.0/33", false, "", ""},
+		{"garbage", false, "", ""},
+		{"", false, "", ""},
+		{"10.0.0.0/", false, "", ""},
+	}
+	c := cases[ndChoice("entry", len(cases))]
+	n := ParseIPNet(c.in)
+	verifAssert("C15.parse.accepted-iff-exact-network-or-address", (n != nil) == c.ok)
+	if n != nil && c.ok {
+		verifReach("accepted")
+		verifAssert("C15.parse.covers-its-network", n.Contains(net.ParseIP(c.inside)))
+		verifAssert("C15.parse.covers-nothing-else", !n.Contains(net.ParseIP(c.outside)))
+		set := NewNetSet()
+		set.AddIPNet(*n)
+		verifAssert("C15.parse.netset-agrees", set.Has(net.ParseIP(c.inside)) && !set.Has(net.ParseIP(c.outside)))
+	} else {
+		verifReach("refused")
+	}
+}
